@@ -145,10 +145,14 @@ CLAIMS["C01"] = dict(
     text=("Proved for every node/array: linearSearch and binarySearch return the unique static child whose first byte matches or -1 (sortedness of the static edges is a "
           "precondition, re-established by newNode's sort and asserted at every node rebuilt by insert/update/remove), compare is the byte order, methodIndex is fully "
           "specified, roots.lookup tries the hostname walk first with the stripped host and falls back to the path walk exactly when it selected nothing. "
-          "NOT proved (bounded only): lookupByPath/lookupByDomain themselves - priority static > parameter > catch-all, backtracking, parameters in pattern order, "
-          "substitution - are goto-structured walks outside the generator's reach; they are abstracted as uninterpreted functions of (tree, host, path) in the callers."),
+          "The walks themselves, lookupByPath and lookupByDomain (goto-structured, ~480 lines, 9 loops), are under contract for every path/host string, every tree whose nodes are "
+          "well-formed and every context: no index, slice-bound or nil failure (full safety, not `partial`); the parameter-key counter always indexes an existing wildcard of the node "
+          "(counted by cnt over the key); the stack of saved alternatives only holds valid (node, child, path offset, parameter count) entries whose parameter counts are monotone and "
+          "never exceed what is recorded, so every backtrack truncates to a recorded prefix (this is the obligation that fails when the parameter count is not restored); the 32-bit "
+          "parameter counter cannot wrap; a reported trailing-slash match always comes with a node; every returned node is a leaf. "
+          "NOT proved (bounded only): WHICH route is selected - priority static > parameter > catch-all, parameters in pattern order, substitution."),
     design_ref="DESIGN.md section 4 C01, section 9, section 10",
-    note=TRUSTED + BOUNDED + " Two genuine defects found by the stand-in were repaired (parameter count after a second backtrack; known_findings.json); three sibling-dependent trailing-slash priority witnesses are recorded as open findings.")
+    note=TRUSTED + BOUNDED + " Assumed for the walks: node well-formedness of every node in the heap (nodeWF in verif_contracts_walk.go: index ranges, params/end positions agree with the '{' count of the key, childless and catch-all-terminal nodes are leaves, infix catch-alls have an inode) - not proved of the constructors, but checked on every tree the routing and map-model stand-ins build; a sub-walk on a pooled context leaves the caller's buffers alone; the monotonicity axiom of cnt. Two genuine defects found by the stand-in were repaired (parameter count after a second backtrack; known_findings.json); three sibling-dependent trailing-slash priority witnesses are recorded as open findings.")
 CLAIMS["C08"] = dict(
     technique="contract-based deductive verification of request dispatch over an abstract selection function + bounded stand-in for the trailing-slash detection in the walk",
     text=("Proved for every request and router state (ServeHTTP, partial correctness): exactly one handler runs; a direct match runs the route's handler with tsr=false; "
